@@ -152,7 +152,17 @@ def one_project(rep, rng, idx, odd_names):
             only_m = list((mk - nk).elements())[:3]
             only_n = list((nk - mk).elements())[:3]
             diff_recs = list((mk - nk).elements()) + list((nk - mk).elements())
-            semi = any(semicolon_class('make', [a]) for k in diff_recs if k and k[0] != 'FAILED' for a in k[0])
+            # explained by the finding: every process only Make starts is a process only Ninja starts (same directory and
+            # environment) whose per-target option words arrive the way the finding predicts, one to one
+            left = [k for k in (nk - mk).elements()]
+            semi = True
+            for k in (mk - nk).elements():
+                hit = [x for x in left if k[0] != 'FAILED' and x[0] != 'FAILED' and x[1:] == k[1:] and semicolon_explains(k[0], x[0])]
+                if hit:
+                    left.remove(hit[0])
+                else:
+                    semi = False
+            semi = semi and not left
             bad += rep.fail('Make and Ninja start different processes: only make %r ; only ninja %r' % (only_m, only_n),
                             {'script': p.script(), 'conf_args': conf_args, 'conf_env': conf_env, 'only_make': only_m, 'only_ninja': only_n,
                              'files': sorted(p.files)}, classes=('target-flag-semicolon',) if semi and diff_recs else ())
@@ -172,7 +182,7 @@ def one_project(rep, rng, idx, odd_names):
                     near = [h for h in have if h and h[-1] == args[-1]][:1]
                     bad += rep.fail('compile_commands.json entry differs from the command Make runs: %r vs %r' % (args, near),
                                     {'script': p.script(), 'entry': e, 'make_argv_same_output': near, 'conf_env': conf_env},
-                                    classes=('target-flag-semicolon',) if any(semicolon_class('make', [a]) for a in args) else ())
+                                    classes=('target-flag-semicolon',) if any(semicolon_explains(h, args) for h in have) else ())
                 if canon(e['directory'], subs) != '$B':
                     bad += rep.fail('compile_commands.json directory %r is not the build directory' % e['directory'], {'entry': e})
         # same buildable targets and (plain names) same dependency relation
@@ -337,12 +347,63 @@ def goal_independence(rep, rng, idx):
     return 0
 
 
-def semicolon_class(backend, own_options):
-    """open finding target-flag-semicolon: GNU Make cuts a target-specific variable line at the first unquoted ';' (the
-    line is scanned as a rule first): per-target words with a ';' in front of a '#' or behind a backslash arrive changed"""
-    text = ' '.join(own_options)
-    i = text.find(';')
-    return ('target-flag-semicolon',) if backend == 'make' and i >= 0 and ('#' in text[i:] or '\\' in text) else ()
+def semicolon_predict(own_options):
+    """The words the open finding target-flag-semicolon predicts for the per-target option words `own_options` written on one
+    target-specific variable line  `tgt: X := w1 w2 ...`  of a Makefile. Makefile._write_variable writes a '#' preceded by k
+    backslashes as 2k+1 backslashes and '#' (Make undoes that when it reads a variable value). GNU Make scans the line as a
+    rule line first and looks for the first ';' that is preceded by an even number of backslashes: in front of every ';' it
+    meets on the way a run of r backslashes becomes r // 2 (one backslash in front of a ; is lost), and everything behind that first
+    unquoted ';' stays as written, i.e. keeps the backslashes put in front of '#'. (Observed with GNU Make 4.3; the words are
+    inside single quotes for sh, which changes none of these characters.)"""
+    def written(s):
+        out, k = '', 0
+        for c in s:
+            if c == '#':
+                out += '\\' * (k + 1)
+            k = k + 1 if c == '\\' else 0
+            out += c
+        return out
+    res, cut = [], False
+    for w in own_options:
+        if cut:
+            res.append(written(w))
+            continue
+        cur = ''
+        for i, c in enumerate(w):
+            if c == ';':
+                k = len(cur) - len(cur.rstrip('\\'))
+                cur = cur[:len(cur) - k] + '\\' * (k // 2) + ';'
+                if k % 2 == 0:
+                    cut = True
+                    cur += written(w[i + 1:])
+                    break
+            else:
+                cur += c
+        res.append(cur)
+    return res
+
+
+def semicolon_explains(make_argv, declared_argv):
+    """make_argv is declared_argv except that one contiguous run of words (the per-target options of the step) arrives the
+    way semicolon_predict says - and that changes something"""
+    m, n = list(make_argv), list(declared_argv)
+    if len(m) != len(n) or m == n:
+        return False
+    diff = [i for i in range(len(m)) if m[i] != n[i]]
+    a, b = diff[0], diff[-1]
+    return any(n[:i] + semicolon_predict(n[i:b + 1]) + n[b + 1:] == m for i in range(a + 1))
+
+
+def semicolon_class(backend, own_options, delivered=None, before=()):
+    """open finding target-flag-semicolon (see semicolon_predict): the input has a ';' among the per-target words AND the
+    delivered argv contains, in order, the words `before` (global options) followed by exactly the words the finding predicts
+    for the per-target ones - anything else delivered for such a step is a different violation"""
+    if backend != 'make' or delivered is None:
+        return ()
+    pred = semicolon_predict(list(own_options))
+    if pred == list(own_options):
+        return ()
+    return ('target-flag-semicolon',) if contains_sublist(list(delivered), list(before) + pred) else ()
 
 
 def contains_sublist(hay, needle):
@@ -444,12 +505,14 @@ def declared_vs_delivered(rep, rng, idx, backend, odd_names=False):
                     continue        # not part of the default target set that make built
                 if hit and not contains_sublist(hit[0], want):
                     bad += rep.fail('%s backend: compile options %r of %s are delivered as %r' % (backend, want, st['source'], hit[0]),
-                                    {'script': p.script(), 'declared': want, 'delivered': hit[0]}, classes=semicolon_class(backend, st['options']))
+                                    {'script': p.script(), 'declared': want, 'delivered': hit[0]},
+                                    classes=semicolon_class(backend, st['options'], hit[0], p.global_compile))
             elif st['kind'] == 'link' and st.get('options'):
                 hit = [a for a in argvs if a and '-o' in a and a[-1].endswith(st['name'])]
                 rep.case('sys:%s:ld:%s' % (backend, st['name']), True)
                 if hit and not contains_sublist(hit[0], p.global_link + st['options']):
                     bad += rep.fail('%s backend: link options %r of %s are delivered as %r' % (backend, p.global_link + st['options'], st['name'], hit[0]),
-                                    {'script': p.script(), 'delivered': hit[0]}, classes=semicolon_class(backend, st['options']))
+                                    {'script': p.script(), 'delivered': hit[0]},
+                                    classes=semicolon_class(backend, st['options'], hit[0], p.global_link))
     rep.traces += 1
     return bad
